@@ -1007,7 +1007,7 @@ def signature_set(repo):
         s['begin'] = 'ANCHOR_BEGIN' in s['flags']; s['end'] = 'ANCHOR_END' in s['flags']; s['wild'] = 'WILDCARDS' in s['flags']
     return sigs
 
-SIG_PROPS = {'C13': (1,), 'C15': (2,), 'C18': (3, 4), 'C16': (5, 6), 'C17': (7, 8)}
+SIG_PROPS = {'C13': (1,), 'C15': (2,), 'C18': (3, 4), 'C16': (5, 6), 'C17': (7, 8), 'C12': (5, 6)}
 
 def g_signature_set_pinned(repo, ids=None):
     """The published signature set (statement of C10) is pinned in spec/signatures.json: protocol ids, patterns, anchoring
